@@ -14,7 +14,7 @@ CHECKS = {
     ),
     "C05": dict(
         technique="exhaustive product over small input alphabets on the real mh_step and kernels, uniform draw owned by a scripted PRNG seam plus a real key whose draw is exactly 0.0; plain-Python MH rule as oracle",
-        text="Full product of current/proposed log-density (finite, underflowing, +-inf, NaN), log-correction (finite, +-inf, NaN) and uniform draw {0, 2^-24, 0.3, 1-2^-24} on the real mh_step with a log-density-carrying DictInterface, eager (scripted uniform), jit and jit(vmap) (draw as traced argument), plus the un-patched real key PRNGKey(14620119) whose draw is exactly 0.0. The same product runs through MHKernel.transition (both branches); lattices on a Liesel model with a hard support boundary and on RW/IWLS kernels over a target with -inf and NaN regions. Oracle: the stated rule, leaf-by-leaf bit equality of the returned state with the input or update_state(proposal, state), moved flag = what happened.",
+        text="Full product of current/proposed log-density (finite, underflowing, +-inf, NaN), log-correction (finite, +-inf, NaN) and uniform draw {0, 2^-24, 0.3, 1-2^-24} on the real mh_step with a log-density-carrying DictInterface, eager (scripted uniform), jit and jit(vmap) (draw as traced argument), plus the un-patched real key PRNGKey(14620119) whose draw is exactly 0.0. The same product runs through MHKernel.transition (both branches); lattices on a Liesel model with a hard support boundary and on RW/IWLS kernels over a target with -inf and NaN regions; IWLS on a double-well target whose information is indefinite at scripted proposals (undefined ratio -> code 90, alpha 0, not moved); the accept draw must not share its PRNG key with another draw of the transition. Oracle: the stated rule, leaf-by-leaf bit equality of the returned state with the input or update_state(proposal, state), moved flag = what happened.",
         note="Alphabet values are float32-exact; interior alpha tolerance 5e-6/5e-5, everything else exact; decision judged against the reported alpha; u == alpha in (0,1) may go either way. update_state and jit/vmap semantics trusted.",
         ref="3/C05",
     ),
@@ -86,13 +86,13 @@ CHECKS = {
     ),
     "C14": dict(
         technique="exhaustive configuration x entry-point x value-lattice enumeration on built models, checked against a change-of-variables reference (scipy float64 + closed-form bijectors)",
-        text="Full product of 13 distribution families x bijector option (instance, class with args, default) x entry point (Var.transform(instance), Var.transform(cls, args), Var.transform(None), auto_transform at build, deprecated GraphBuilder.transform in the same forms) x parameter kind (constants; distribution parameters as variables incl. a hyper-prior; bijector arguments as variables; both) x build style (GraphBuilder.add(x), add(sink only), lsl.Model([x]), lsl.Model([sink])) x shape, per_obs and parameter flag; every variable handed to the distribution or bijector must be in the built model. Each case is a real model walked over 7 (thorough 13) unconstrained values by assignment, then every parameter and argument variable is re-assigned. Oracle: original value equals b(t) and is unchanged by the transformation, new log_prob = log p(b(t)) + log|b'(t)|, Model.log_prob / log_prior / log_lik, parameter flag moved, original keeps no distribution, per_obs carried over.",
+        text="Full product of 13 distribution families x bijector option (instance, class with args, default) x entry point (Var.transform(instance), Var.transform(cls, args), Var.transform(None), auto_transform at build, deprecated GraphBuilder.transform in the same forms) x parameter kind (constants; distribution parameters as variables incl. a hyper-prior; bijector arguments as variables; both) x build style (GraphBuilder.add(x), add(sink only), lsl.Model([x]), lsl.Model([sink])) x shape, per_obs and parameter flag, plus chained (double) transforms of the new variable; every variable handed to the distribution or bijector must be in the built model. Each case is a real model walked over 7 (thorough 13) unconstrained values by assignment, then every parameter and argument variable is re-assigned. Oracle: original value equals b(t) and is unchanged by the transformation, new log_prob = log p(b(t)) + log|b'(t)|, Model.log_prob / log_prior / log_lik, parameter flag moved, original keeps no distribution, per_obs carried over.",
         note="TFP's densities and bijectors trusted as such but every number is compared with an independent float64 scipy or closed-form reference; values to 2e-5 relative, log-densities to 2e-4*(1+|log p|+|log b'|); lattice points only.",
         ref="3/C14",
     ),
     "C18": dict(
         technique="exhaustive input-lattice enumeration with scripted-PRNG reconstruction of the sampler's linear map; float64 closed forms as oracle",
-        text="MVN degenerate: d 1-4 (thorough 6) x 6 integer penalties and their stacked batch x variances x loc x batch layouts (incl. mixed broadcasting) x 13 constructor variants x lattice {-1,0,2}^d plus null-space shifts; oracles: range-space density, rank/log-pdet, null invariance, constructor agreement; sampler map rebuilt from scripted normals e_i: S S' = pinv(P), N'S = 0, sample shapes (), (2,), (2,2). AlgebraicSigmoid on 41-point x and y lattices in float32 and float64 against closed forms and jax.grad. Copula: 8 dependences and None x 7x7 lattice x validate_args x batches, closed form, marginals by 198-node quadrature.",
+        text="MVN degenerate: d 1-4 (thorough 6), plus a high-dimensional family d in {30, 60} whose pseudo-determinant leaves the float32 range, x 6 integer penalties and their stacked batch x variances x loc x batch layouts (incl. mixed broadcasting) x 13 constructor variants x lattice {-1,0,2}^d plus null-space shifts; oracles: range-space density, rank/log-pdet, null invariance, constructor agreement; sampler map rebuilt from scripted normals e_i: S S' = pinv(P), N'S = 0, sample shapes (), (2,), (2,2). AlgebraicSigmoid on 41-point x and y lattices in float32 and float64 against closed forms and jax.grad. Copula: 8 dependences and None x 7x7 lattice x validate_args x batches, closed form, marginals by 198-node quadrature.",
         note="Trusted: TFP base classes, MultivariateNormalTriL, NormalCDF; float32 against float64 closed forms with measured margin >= 10x; lattice points only. One open finding (absolute eigenvalue tolerance 1e-6 vs float32 noise) is reported as KNOWN-FINDING; its signature is emitted only when liesel's own eigenvalue of a true null direction exceeds tol.",
         ref="3/C18",
     ),
@@ -110,7 +110,7 @@ CHECKS = {
     ),
     "C08": dict(
         technique="exhaustive configuration product on the real Engine and chain classes with value-encoded deterministic kernels; reference chain as oracle and differential comparison across chunkings",
-        text="Deterministic key-ignoring kernels write values that encode key, element, chain, epoch and iteration; positions, posterior positions, transition infos, kernel states and generated quantities are compared element by element with the reference over all valid schedules up to 2 (thorough 3) epochs x durations x thinnings x every chunk (constructor and builder), tracked-key selections (every position_keys subset and included/excluded pair) x 3 leaf-shape assignments x flags (store_kernel_states, quantity generator, minimize) x 1-3 chains; results must be identical across chunk sizes. ListEpochChain and EpochChainManager are also checked alone over all compositions of every duration <= 8 (thorough 10) with every thinning and all epoch sequences of length <= 3.",
+        text="Deterministic key-ignoring kernels write values that encode key, element, chain, epoch and iteration; positions, posterior positions, transition infos, kernel states and generated quantities are compared element by element with the reference over all valid schedules up to 2 (thorough 3) epochs x durations x thinnings x every chunk (constructor and builder), tracked-key selections (every position_keys subset and included/excluded pair, incl. excluded keys of a kernel that needs its history) x 3 leaf-shape assignments x flags (store_kernel_states, quantity generator, minimize) x 1-3 chains; results must be identical across chunk sizes. ListEpochChain and EpochChainManager are also checked alone over all compositions of every duration <= 8 (thorough 10) with every thinning and all epoch sequences of length <= 3.",
         note="Values use the engine's epoch clock, validated by the C07 oracle in the same run; DictInterface trusted; posterior accessors only called when a posterior epoch exists; selection/flags/shape products use 2-3 fixed schedules.",
         ref="3/C08",
     ),
